@@ -6,6 +6,7 @@
 (*  family "ins": every mnemonic x register triples x labelled boundary imms *)
 (*  family "exe": executable mnemonics x register triples x imms x states    *)
 (*  family "hilo": boundary words for the %hi/%lo split                      *)
+(*  family "mul": small operand pairs for the multiply-high instructions    *)
 (* The same run writes the boundary table of idiom G (RV32_Gen.WriteTable).  *)
 EXTENDS RV32_Gen
 CONSTANTS Deep, Fams
@@ -18,15 +19,16 @@ None == [k |-> "none"]
 RB == IF Deep THEN {0, 1, 2, 5, 8, 9, 15, 16, 31} ELSE {0, 1, 2, 8, 15, 31}
 Triples == {<<r, r, r>> : r \in RB} \cup {<<10, 11, 12>>, <<8, 9, 9>>, <<9, 8, 8>>, <<1, 2, 0>>, <<0, 1, 2>>, <<31, 0, 15>>,
                                          <<2, 2, 9>>, <<12, 12, 13>>, <<5, 0, 0>>}
-ExeTriples == IF Deep THEN Triples ELSE {<<10, 11, 12>>, <<9, 9, 9>>, <<8, 9, 8>>, <<1, 2, 0>>, <<0, 1, 2>>, <<5, 5, 31>>}
-ExePlans == IF Deep THEN 1..Len(PairPlan) ELSE {1, 3, 5, 7, 9, 12}
+ExeTriples == IF Deep THEN Triples ELSE {<<10, 11, 12>>, <<9, 9, 9>>, <<8, 9, 8>>, <<1, 2, 0>>, <<0, 1, 2>>}
+ExePlans == IF Deep THEN 1..Len(PairPlan) ELSE {1, 3, 5, 7, 10}
 ImmsOf(m) == LET fr == FieldRange(m) IN
              IF fr.kind = "n" THEN {0} ELSE {Labelled(fr)[k][2] : k \in 1..Len(Labelled(fr))}
 AllMn == Mn32 \cup Mn16
 ExeMn == {m \in AllMn : Modelled(Ins(m, 0, 0, 0, 0, 0))}
 ExeImms(m) == LET fr == FieldRange(m) IN
               IF fr.kind = "n" THEN {0}
-              ELSE {v \in {FMin(fr), -fr.align, 0, fr.align, 3 * fr.align, FMax(fr)} : Representable(fr, v)}
+              ELSE {v \in (IF Deep THEN {FMin(fr), -fr.align, 0, fr.align, 3 * fr.align, FMax(fr)}
+                                    ELSE {FMin(fr), fr.align, FMax(fr)}) : Representable(fr, v)}
 F7s == {0, 1, 32, 64, 127}
 
 Init == fam = "none" /\ c = None
@@ -82,7 +84,9 @@ PickExe == fam = "exe" /\ c.k = "exe-" /\ UNCHANGED fam
                  c' = [k |-> "exe", i |-> Repair(c.mn, t, v), plan |-> PairPlan[p]]
 HiLoWords == {<<a, b, d, e>> : a \in {0, 1, 254, 255}, b \in {0, 7, 8, 15, 16, 247, 248, 255}, d \in {0, 255, 127}, e \in {0, 127, 128, 255}}
 PickHiLo == fam = "hilo" /\ c = None /\ UNCHANGED fam /\ \E w \in HiLoWords : c' = [k |-> "hilo", w |-> w]
-Next == PickFam \/ PickH16 \/ PickH16b \/ PickW32 \/ PickInsMn \/ PickIns \/ PickExeMn \/ PickExe \/ PickHiLo
+PickMul == fam = "mul" /\ c = None /\ UNCHANGED fam
+           /\ \E x \in {-46340, -3, -1, 0, 1, 2, 46340}, y \in {-46340, -2, -1, 0, 1, 3, 46340} : c' = [k |-> "mul", x |-> x, y |-> y]
+Next == PickFam \/ PickMul \/ PickH16 \/ PickH16b \/ PickW32 \/ PickInsMn \/ PickIns \/ PickExeMn \/ PickExe \/ PickHiLo
 
 Legal(d) == d.mn \notin {"illegal", "unsupported"}
 -----------------------------------------------------------------------------
@@ -137,14 +141,16 @@ LawDiv == (IsExe /\ c.i.mn \in {"div", "divu"}) =>
     /\ WIsZero(b) => (q = WOnes(4) /\ r = a)
     /\ (c.i.mn = "div" /\ WIsMin(a) /\ WIsMinusOne(b)) => (q = a /\ WIsZero(r))
     /\ (~WIsZero(b) /\ c.i.mn = "divu") => WLtU(r, b)
-\* multiplication: 64-bit product = (mulh : mul), cross-checked on operands whose product is small
-LawMul == (IsExe /\ c.i.mn \in {"mul", "mulh", "mulhu", "mulhsu"}) =>
-    \A x \in {-3, -1, 0, 1, 2, 46340} : \A y \in {-46340, -2, 0, 1, 3} :
+\* multiplication (family "mul"): 64-bit product = (mulh : mul), cross-checked against integer
+\* arithmetic on operands whose product is small
+LawMul == c.k = "mul" =>
+    LET x == c.x  y == c.y IN
         /\ Alu("mul", W4(x), W4(y)) = W4(x * y)
         /\ Alu("mulh", W4(x), W4(y)) = (IF x * y < 0 THEN WOnes(4) ELSE WZero(4))
         /\ (x >= 0 /\ y >= 0) => (Alu("mulhu", W4(x), W4(y)) = WZero(4) /\ Alu("mulhsu", W4(x), W4(y)) = WZero(4))
         /\ (x < 0 /\ y > 0) => Alu("mulhsu", W4(x), W4(y)) = WOnes(4)
         /\ (x = -1 /\ y = -1) => Alu("mulhu", W4(x), W4(y)) = <<254, 255, 255, 255>>
+        /\ Alu("mulhu", W4(x), W4(y)) = Alu("mulhu", W4(y), W4(x))
 \* a store followed by a load of the same width at the same address returns the stored value
 LawMem == (IsExe /\ c.i.mn \in {"sw", "sh", "sb"} /\ c.i.rs1 # 0) =>
     LET ld == CASE c.i.mn = "sw" -> "lw" [] c.i.mn = "sh" -> "lhu" [] OTHER -> "lbu"
